@@ -120,6 +120,39 @@ def tasks(prop, tier, seed, oracle_only=False):
 
 SPECIAL = {}
 
+C08_SCENARIOS = ["dict_default", "dict_default_fresh", "dict_default_shorter", "dict_write_concern_nothreads",
+                 "attrdict_default", "dict_plain_nothreads", "list_two_saves", "buffered_backend", "buffered_objects",
+                 "buffered_forced", "membuffered_backend", "membuffered_forced", "membuffered_objects"]
+
+
+def _c08_tasks(tier, seed):
+    out = []
+    for name in C08_SCENARIOS:
+        out.append(("unit_c08_trace", (name, seed)))
+        parts = 2
+        for part in range(parts):
+            out.append(("unit_c08_crash", (name, part, parts, seed, tier == "thorough")))
+    for mode in ("atomic", "write_concern", "plain"):
+        out.append(("unit_c08_unserialisable", (mode, seed)))
+    return out
+
+
+SPECIAL["c08"] = _c08_tasks
+PROPS["C08"] = dict(
+    suites=[dict(unit="c08", special="c08")],
+    rule="13 save scenarios (plain save with threading on/off and write_concern, dict/list/attr, two consecutive saves, "
+         "multi-file flushes of both buffer strategies at backend-wide exit, per-object exit and capacity-forced): (i) the traced "
+         "sequence of mutating file operations (process-wide hooks on open/io.open/os.open/os.write/os.replace/os.rename/...) must "
+         "equal the model's saveSteps for the same targets and lengths, serialisation first, temp file in the target's directory and "
+         "never reused; (ii) the process is killed at every mutating file operation and, inside each write, after 0, 1, half and "
+         "len-1 bytes; after each kill every file must be wholly old or wholly new, a fresh object must open it, and a complete "
+         "later save (shorter / longer document) must install exactly its content; (iii) unserialisable content in all three write modes",
+    assumptions=[
+        "os.replace is atomic (POSIX rename within one directory); a process crash loses no bytes already handed to the OS (the code does not fsync: OS/power failure is outside the claim)",
+        "uuid4 temporary names do not collide with a collection file or with each other",
+        "a crash inside Python's write() leaves a prefix of the bytes (any prefix is tried via an explicit flush of that prefix)",
+        "the theorems are about the operation sequences of SC/FS.lean; the real code is tied to them by trace equality on every run"])
+
 
 def aggregate(prop, results):
     agg = dict(programs=0, corr_programs=0, steps=0, diffs=[], violations=[], crashes=[], samples=[],
@@ -205,7 +238,8 @@ def replay(prop, path):
             print("  [%s] %s" % (p["kind"], p["what"][:600]))
         return 1
     ns = env.load()
-    fam = [f for f in ns.families if f.short == payload["family"]][0]
+    fams = [f for f in ns.families if f.short == payload.get("family")]
+    fam = fams[0] if fams else ns.families[0]
     ops = eval(payload["ops"], {"Other": Other, "MISSING": MISSING, "slice": slice}) if payload.get("ops") else None
     if payload.get("kind") == "shadow":
         sh, _ = suites.run_shadow(ns, fam, ops)
@@ -249,6 +283,31 @@ def replay(prop, path):
         if not bad:
             print("replay: no violation of %s on the current tree" % prop)
         return 1 if bad else 0
+    if payload.get("kind") == "c08":
+        import c08
+        import crash as crash_mod
+        ex = payload["extra"]
+        sc = crash_mod.scenarios(ns)[ex["scenario"]]
+        import tempfile, shutil
+        d0 = tempfile.mkdtemp(prefix="scverif_c08_")
+        try:
+            t0 = crash_mod.trace_scenario(ns, ex["scenario"], sc, d0)
+            v = c08.run_crash_case(ns, ex["scenario"], sc, ex["event"], ex["prefix"], t0, ex["followup"], ex.get("eager", True))
+        finally:
+            shutil.rmtree(d0, ignore_errors=True)
+        for m in v:
+            print("VIOLATION property=%s replay=%s" % (prop, path))
+            print("  " + m[:600])
+        if not v:
+            print("replay: no violation of %s on the current tree" % prop)
+        return 1 if v else 0
+    if payload.get("kind") == "c08u":
+        import c08
+        r = c08.unit_c08_unserialisable((payload["extra"]["mode"], 0))
+        for v in r.get("violations", []):
+            print("VIOLATION property=%s replay=%s" % (prop, path))
+            print("  " + v["msg"][:600])
+        return 1 if r.get("violations") else 0
     handler = REPLAYERS.get(payload.get("kind"))
     if handler:
         return handler(prop, path, payload, ns)
